@@ -460,7 +460,14 @@ class Linker:
             size = reloc.size()
             end = begin + size
             data = reloc_section.data[begin:end]
-            if reloc.can_shrink(sym_value, reloc_value, data):
+            # Only relax references to targets in the same section: their
+            # distance can only decrease when bytes in between are removed.
+            # The distance to a target in another section (maybe placed in
+            # another memory) can increase, and might no longer fit.
+            symbol = self.dst.symbols_by_id[relocation.symbol_id]
+            if symbol.section == relocation.section and reloc.can_shrink(
+                sym_value, reloc_value, data
+            ):
                 # Apply code patching:
                 assert len(data) == size
 
